@@ -145,3 +145,57 @@ def eam_tab_api(model, wrap=None):
   objs = eam_api_objects(model, wrap)
   t = model["tab"]
   return cls(*objs, float(t["cutoff"]), int(t["nr"]), float(t["cutoff_rho"]), int(t["nrho"]))
+
+
+# ------------------------------------------------------------------ potable main() in-process
+
+def potable_main(args, text=None, tmpdir=None, infile_name="model.aspot"):
+  """Call the CLI entry point main() in this process (sys.argv patched, SystemExit caught).
+  Same return shape as run_potable()."""
+  import contextlib
+  import logging
+  from atsim.potentials.tools import potable as potable_mod
+  tmpdir = tmpdir or tempfile.mkdtemp(prefix="potable-", dir=os.environ.get("VERIF_TMP"))
+  argv = list(args)
+  inpath = None
+  if text is not None:
+    inpath = os.path.join(tmpdir, infile_name)
+    with open(inpath, "w") as f:
+      f.write(text)
+    argv = [inpath if a == "@IN" else a for a in argv]
+  outpath = os.path.join(tmpdir, "OUT.table")
+  if os.path.exists(outpath):
+    os.unlink(outpath)
+  argv = [outpath if a == "@OUT" else a for a in argv]
+  old_argv = sys.argv
+  so, se = io.StringIO(), io.StringIO()
+  rc = None
+  exc = None
+  root = logging.getLogger()
+  old_level = root.level
+  old_handlers = list(root.handlers)
+  try:
+    sys.argv = ["potable"] + argv
+    with contextlib.redirect_stdout(so), contextlib.redirect_stderr(se):
+      try:
+        potable_mod.main()
+        rc = 0
+      except SystemExit as e:
+        rc = e.code if isinstance(e.code, int) else (0 if e.code is None else 1)
+      except BaseException as e:  # what would be an uncaught traceback (status 1) in the real CLI
+        rc = 1
+        exc = e
+  finally:
+    sys.argv = old_argv
+    for h in list(root.handlers):
+      if h not in old_handlers:
+        root.removeHandler(h)
+    root.setLevel(logging.WARNING)
+    # argparse.FileType leaves the config file open; nothing else to clean
+  data = None
+  exists = os.path.exists(outpath)
+  if exists:
+    with open(outpath, "rb") as f:
+      data = f.read()
+  return {"rc": rc, "out": so.getvalue(), "err": se.getvalue() + (("%s: %s" % (type(exc).__name__, exc)) if exc else ""),
+          "data": data, "exists": exists, "outpath": outpath, "inpath": inpath, "tmpdir": tmpdir, "exc": exc}
